@@ -176,7 +176,7 @@ var profiles = map[string]profile{
 		weights: map[string]int{"w": 14, "start": 5, "release": 5, "relw": 3, "grant": 3, "check": 2, "drain": 2, "sleep": 1, "wrace": 2, "cancel": 2, "eof": 1},
 		wkinds:  []string{"noti", "noti", "noti", "noti", "noti", "noti", "noti", "noti", "reset", "sync", "updmeta"},
 		parks:   []string{"", "sub.pre-register", "sub.registered", "sub.walk.begin", "sub.walk.end", "coalesce.next.empty"}},
-	"C05": {minTargets: 1, maxTargets: 3, modes: []string{"once", "poll", "poll"}, gatedPct: 20, maxSteps: 24, maxSubs: 3, preload: 5, starPct: 35, pickPct: 30, bulkPct: 5, bulkNs: []int{5, 33, 70, 130, 257, 300, 520},
+	"C05": {minTargets: 1, maxTargets: 3, modes: []string{"once", "poll", "poll"}, gatedPct: 20, maxSteps: 24, maxSubs: 3, preload: 5, starPct: 35, pickPct: 30, bulkPct: 5, bulkNs: []int{5, 33, 70, 130, 257, 300, 520}, viaPct: 10,
 		weights: map[string]int{"w": 6, "start": 6, "release": 3, "poll": 6, "eof": 2, "grant": 2, "drain": 2, "sleep": 2, "wrace": 2},
 		wkinds:  []string{"noti", "noti", "noti", "noti", "noti", "noti", "noti", "noti", "reset", "reset", "remove", "remove", "add", "add", "readd"},
 		parks:   []string{"", "", "sub.walk.begin", "sub.walk.end", "coalesce.next.empty", "coalesce.next.empty"}},
